@@ -121,6 +121,8 @@ def parseOp (j : Json) : Except String (Op Rat) := do
     pure (.apply (← fldN j "sid") (← parseFunc (← fld j "func")) (← optN j "out"))
   | "fromFields" => do
     pure (.fromFields (← fldQs j "times") (← fldNs j "fids") (parseMode (← fldS j "mode")))
+  | "fromCollection" => do
+    pure (.fromCollection (← fldNs j "sids") (← optStr j "label") (← fldQ j "rtol") (← fldQ j "atol"))
   | "poke" => do pure (.poke (← fldN j "sid") (← fldN j "i") (← fldQs j "vals"))
   | k => throw s!"unknown op {k}"
 
